@@ -14,7 +14,11 @@
 #else
 #define VP_TLS
 #endif
+#include <cstring>
+#include <string>
+#include <map>
 static std::vector<uint64_t> vec;          // written before the threads start, read-only afterwards
+static std::map<std::string, uint64_t>* hash_override;      // contents -> hash value chosen by the solver (equal-hash neighbours)
 static VP_TLS size_t pos = 0;
 static VP_TLS int failed = 0;
 
@@ -25,17 +29,47 @@ extern "C" {
    uint64_t vp_fork(uint64_t x) { return x; }
    void vp_observe(uint64_t tag, uint64_t v) { std::printf("OBSERVE %llu %llu\n", (unsigned long long)tag, (unsigned long long)v); }
    void vp_done(void) { std::printf("DONE\n"); }
+   void vp_check_range(void* p, uint64_t len) { volatile unsigned char* q = static_cast<unsigned char*>(p); for (uint64_t i = 0; i < len; ++i) q[i] = 0xAA; std::printf("ASSERT 9001 ok\n"); }
    void vp_mark(void) { }
    void vp_phase(int) { }
    void vp_leakcheck(void) { std::printf("ASSERT 9000 ok\n"); }      // the accounting itself is LeakSanitizer's (replay build)
+}
+
+// std::hash of byte strings, interposed: the real libstdc++ algorithm (MurmurHash64A variant) unless the replay file assigns the
+// content a value ("H <hex bytes> <value>" lines) - any function of the content is a legitimate std::hash, and the property
+// quantifies over equal-hash neighbours, which cannot be found by inverting the real function.
+namespace std {
+   size_t _Hash_bytes(const void* ptr, size_t len, size_t seed)
+   {
+      if (hash_override) { auto it = hash_override->find(std::string(static_cast<const char*>(ptr), len)); if (it != hash_override->end()) return it->second; }
+      const size_t mul = (size_t(0xc6a4a793UL) << 32UL) + size_t(0x5bd1e995UL);
+      const char* const buf = static_cast<const char*>(ptr);
+      const size_t len_aligned = len & ~size_t(0x7);
+      const char* const end = buf + len_aligned;
+      size_t hash = seed ^ (len * mul);
+      auto shift_mix = [](size_t v) { return v ^ (v >> 47); };
+      for (const char* p = buf; p != end; p += 8) { size_t d; std::memcpy(&d, p, 8); const size_t data = shift_mix(d * mul) * mul; hash ^= data; hash *= mul; }
+      if ((len & 0x7) != 0) { size_t data = 0; int n = int(len & 0x7) - 1; do data = (data << 8) + static_cast<unsigned char>(end[n]); while (--n >= 0); hash ^= data; hash *= mul; }
+      hash = shift_mix(hash) * mul; hash = shift_mix(hash);
+      return hash;
+   }
 }
 
 int main(int argc, char** argv)
 {
    if (argc < 3) { std::fprintf(stderr, "usage: %s entry vector-file\n", argv[0]); return 2; }
    if (FILE* f = std::fopen(argv[2], "r")) {
-      unsigned long long x;
-      while (std::fscanf(f, "%llu", &x) == 1) vec.push_back(x);
+      char tok[1 << 12];
+      while (std::fscanf(f, "%4095s", tok) == 1) {
+         if (tok[0] == 'H' && tok[1] == 0) {
+            char hx[1 << 12]; unsigned long long hv;
+            if (std::fscanf(f, "%4095s %llu", hx, &hv) != 2) break;
+            std::string bytes; for (size_t i = 0; hx[i] && hx[i + 1]; i += 2) { unsigned b; std::sscanf(hx + i, "%2x", &b); bytes.push_back(char(b)); }
+            if (!hash_override) hash_override = new std::map<std::string, uint64_t>;
+            (*hash_override)[bytes] = hv;
+         }
+         else vec.push_back(std::strtoull(tok, nullptr, 10));
+      }
       std::fclose(f);
    }
    auto fn = reinterpret_cast<void (*)()>(dlsym(RTLD_DEFAULT, argv[1]));
